@@ -30,6 +30,7 @@ let vres_obs (r : C08Model.vres Base.outcome) : string =
 
 let run_op (s : string) : string =
   match split_on ':' s with
+  | "conc" :: _ -> "conc=ok"  (* verification and emission are functions of the packet bytes (C02: no shared state): all accepted *)
   | "buf" :: _ -> "buf=1"   (* buffer handling of the harness: the model's emitters are functions of the bytes *)
   | ["fold"; a] -> Printf.sprintf "fold=%d" (int_of_z (C08Model.coq_FoldChecksum (z_of_hex a)))
   | ["cc"; a] -> (match split_on ',' a with
@@ -43,7 +44,7 @@ let run_op (s : string) : string =
         let c = C08Model.coq_ComputeChecksum data (z_of_hex acc) in
         Printf.sprintf "cc=%s;fold=%d" (hex_of_z c) (int_of_z (C08Model.coq_FoldChecksum c))
       | _ -> failwith "ccr")
-  | ["emit"; a] -> (match split_on ',' a with
+  | ["emit"; a] | ["oemit"; a] -> (match split_on ',' a with
       | [l; p; src; dst; h] ->
         let bs = bytes_of_hex h in
         (match C08Model.emit (layer_of l) (pseudo_of p src dst) bs with
@@ -52,7 +53,7 @@ let run_op (s : string) : string =
          | Base.Err c -> "cls=" ^ cls_of_err c
          | Base.Panic _ -> "cls=panic")
       | _ -> failwith "emit")
-  | ["ver"; a] -> (match split_on ',' a with
+  | ["ver"; a] | ["over"; a] -> (match split_on ',' a with
       | [l; p; src; dst; h] -> vres_obs (C08Model.verify (layer_of l) (pseudo_of p src dst) (bytes_of_hex h))
       | _ -> failwith "ver")
   | ["flip"; a] -> (match split_on ',' a with
@@ -110,13 +111,13 @@ let to_coq_op (name : string) (s : string) (out : out_channel) : unit =
         ex (Printf.sprintf "(let c := ComputeChecksum (rep_bytes %s %s %s) %s in (c, FoldChecksum c))" (coq_z bz) (coq_z nz) (coq_zlist t) (coq_z a0))
           (coq_pair coq_z coq_z (c, C08Model.coq_FoldChecksum c))
       | _ -> ())
-  | ["emit"; a] -> (match split_on ',' a with
+  | ["emit"; a] | ["oemit"; a] -> (match split_on ',' a with
       | [l; p; src; dst; h] when String.length h <= 400 ->
         let ly = layer_of l and ps = pseudo_of p src dst and bs = bytes_of_hex h in
         ex (Printf.sprintf "emit %s %s %s" (coq_layer ly) (coq_pseudo ps) (coq_zlist bs))
           (coq_outcome (coq_pair (coq_option coq_z) coq_zlist) (C08Model.emit ly ps bs))
       | _ -> ())
-  | ["ver"; a] -> (match split_on ',' a with
+  | ["ver"; a] | ["over"; a] -> (match split_on ',' a with
       | [l; p; src; dst; h] when String.length h <= 400 ->
         let ly = layer_of l and ps = pseudo_of p src dst and bs = bytes_of_hex h in
         ex (Printf.sprintf "verify %s %s %s" (coq_layer ly) (coq_pseudo ps) (coq_zlist bs)) (coq_vout (C08Model.verify ly ps bs))
